@@ -933,7 +933,7 @@ fn handle_indentations_for(n: usize) -> (u8, usize) {
     }
 }
 
-// @ob id=C04.k.handle_indentations_d0 props=C04,C05,C03 kind=bounded tier=thorough timeout=900
+// @ob id=C04.k.handle_indentations_d0 props=C04,C05,C03 kind=bounded tier=quick timeout=900
 // @bound stack of 1 level (module level only); lines with at most 4 indentation characters (tabs then spaces)
 // @clause INDENT/DEDENT bookkeeping at the start of a logical line, stack depth 1: deeper than the top pushes and emits one Indent whose range is exactly the indentation characters (no underflow of pos - spaces - tabs); equal emits nothing; inside brackets nothing happens
 // @fns Lexer::handle_indentations Lexer::eat_indentation IndentationLevel::compare_strict Indentations::push Indentations::pop Indentations::current
@@ -1327,4 +1327,104 @@ fn c05_emoji_name_step() {
     }
     kani::cover!(l == 4);
     kani::cover!(l == 3);
+}
+
+// ---------------------------------------------------------------------------------------------
+// Number prefix dispatch and identifier character classes
+
+static mut RADIX_CALLS: u32 = 0;
+static mut RADIX_SEEN: u32 = 0;
+static mut RADIX_START: u32 = 0;
+static mut NORMAL_CALLS: u32 = 0;
+fn lex_number_radix_recorder<T: Iterator<Item = char>>(l: &mut Lexer<T>, start_pos: TextSize, radix: u32) -> LexResult {
+    unsafe {
+        RADIX_CALLS += 1;
+        RADIX_SEEN = radix;
+        RADIX_START = start_pos.to_u32();
+    }
+    let p = l.get_pos();
+    Ok((Tok::Dot, TextRange::empty(p)))
+}
+fn lex_normal_number_recorder<T: Iterator<Item = char>>(l: &mut Lexer<T>) -> LexResult {
+    unsafe {
+        NORMAL_CALLS += 1;
+    }
+    let p = l.get_pos();
+    Ok((Tok::Dot, TextRange::empty(p)))
+}
+
+// @ob id=C06.k.number_prefix_dispatch props=C06,C05,C03 kind=complete tier=quick
+// @clause integers in bases 2, 8, 10, 16: a literal starting with 0x/0X, 0o/0O, 0b/0B is scanned with radix 16, 8, 2 (the prefix's two characters consumed, the token start remembered before them); every other start goes to the decimal/float scanner with nothing consumed (every window)
+// @fns Lexer::lex_number
+#[kani::proof]
+#[kani::unwind(6)]
+#[kani::stub(Lexer::lex_number_radix, lex_number_radix_recorder)]
+#[kani::stub(Lexer::lex_normal_number, lex_normal_number_recorder)]
+fn c06_number_prefix_dispatch() {
+    let (w, s) = any_stream();
+    let start: u32 = kani::any();
+    kani::assume(start <= MAX_START);
+    let mut lxr = ManuallyDrop::new(lexer_at(w, s, start, kani::any(), kani::any()));
+    let r = ManuallyDrop::new(lxr.lex_number());
+    assert!(r.is_ok());
+    let radix = if w[0] == Some('0') {
+        match w[1] {
+            Some('x') | Some('X') => Some(16),
+            Some('o') | Some('O') => Some(8),
+            Some('b') | Some('B') => Some(2),
+            _ => None,
+        }
+    } else {
+        None
+    };
+    unsafe {
+        match radix {
+            Some(rx) => {
+                assert!(RADIX_CALLS == 1 && NORMAL_CALLS == 0);
+                assert!(RADIX_SEEN == rx && RADIX_START == start);
+                assert!(lxr.location.to_u32() == start + 2);
+            }
+            None => {
+                assert!(RADIX_CALLS == 0 && NORMAL_CALLS == 1);
+                assert!(lxr.location.to_u32() == start);
+            }
+        }
+    }
+    kani::cover!(radix == Some(8));
+    kani::cover!(radix.is_none() && w[0] == Some('0'));
+}
+
+static mut XID: bool = false;
+fn xid_stub(_c: char) -> bool {
+    unsafe { XID }
+}
+
+// @ob id=C05.k.identifier_chars props=C05,C03 kind=complete tier=quick
+// @clause a name's characters: ASCII letters and '_' always start an identifier, ASCII digits never start one but continue one, every other character is decided by the Unicode XID tables alone (abstracted by an arbitrary predicate); end of input continues nothing (all chars)
+// @fns Lexer::is_identifier_start Lexer::is_identifier_continuation
+#[kani::proof]
+#[kani::unwind(6)]
+#[kani::stub(unic_ucd_ident::is_xid_start, xid_stub)]
+#[kani::stub(unic_ucd_ident::is_xid_continue, xid_stub)]
+fn c05_identifier_chars() {
+    let (w, s) = any_stream();
+    let x: bool = kani::any();
+    unsafe {
+        XID = x;
+    }
+    let lxr = ManuallyDrop::new(lexer_at(w, s, 0, 0, false));
+    let c: char = kani::any();
+    let ascii_letter = (c >= 'a' && c <= 'z') || (c >= 'A' && c <= 'Z') || c == '_';
+    let start = lxr.is_identifier_start(c);
+    assert!(start == (ascii_letter || x));
+    let cont = lxr.is_identifier_continuation();
+    match w[0] {
+        None => assert!(!cont),
+        Some(h) => {
+            let al = (h >= 'a' && h <= 'z') || (h >= 'A' && h <= 'Z') || h == '_' || (h >= '0' && h <= '9');
+            assert!(cont == (al || x));
+        }
+    }
+    kani::cover!(start && !x);
+    kani::cover!(cont && !x);
 }
